@@ -13,7 +13,16 @@
    false) for ordinary heads; since commit 7b8a7f4 taskHandleHookRun passes, for a
    Synchronization head, "same-hook Synchronization with ExecuteOnSynchronization = false";
    addon-operator passes its own.  The merged block is then the maximal prefix of the
-   following same-hook same-type tasks on which the predicate is false. *)
+   following same-hook same-type tasks on which the predicate is false.
+
+   The queue SET (part 2) and the task handler (part 3).  [qset] = the named queues of
+   TaskQueueSet; [get_by_name] = GetByName; the executed task carries its queue name [t_qn]
+   (0 = the empty name); [combine_set] = the call of taskHandleHookRun,
+   combineBindingContextForHook(tqs, tqs.GetByName(t.GetQueueName()), t, stop); [arrivals n app]
+   = the tasks that arrived for queue n while the call was in progress.  [model_step] = one
+   step of the operator: the worker of a queue executes its head ([SHead]), or a task that sits
+   in no queue is handed to the task handler ([SLoose]: what the admission and conversion
+   webhook handlers do, with the empty name). *)
 From Verif Require Import Common C07_Model C07_Spec C07_Proofs.
 
 (* the whole decidable predicate P of C07_Spec holds of the model on EVERY input
@@ -89,14 +98,14 @@ Print Assumptions C07_exact_when_head_compacted.
    survives.  Head 1 (hook 1, type 0, contexts g1 g1), then 2 (same hook/type: g1, none,
    g2), 3 (same: g2), 4 (same hook, other type), 5 (hook 2), 6 (hook 1 again, not
    adjacent); 7 is appended concurrently. *)
-Definition ex_t : task := (mkTask 1 1 0 true [mkCtx 10 1; mkCtx 11 1] [100])%N.
+Definition ex_t : task := (mkTask 1 1 0 true [mkCtx 10 1; mkCtx 11 1] [100] 1)%N.
 Definition ex_rest : list task :=
-  [ mkTask 2 1 0 true [mkCtx 20 1; mkCtx 21 0; mkCtx 22 2] [200; 201];
-    mkTask 3 1 0 true [mkCtx 30 2] [];
-    mkTask 4 1 1 true [mkCtx 40 2] [400];
-    mkTask 5 2 0 true [mkCtx 50 2] [];
-    mkTask 6 1 0 true [mkCtx 60 2] [] ]%N.
-Definition ex_app : list task := [ mkTask 7 1 0 true [mkCtx 70 2] [700] ]%N.
+  [ mkTask 2 1 0 true [mkCtx 20 1; mkCtx 21 0; mkCtx 22 2] [200; 201] 1;
+    mkTask 3 1 0 true [mkCtx 30 2] [] 1;
+    mkTask 4 1 1 true [mkCtx 40 2] [400] 1;
+    mkTask 5 2 0 true [mkCtx 50 2] [] 1;
+    mkTask 6 1 0 true [mkCtx 60 2] [] 1 ]%N.
+Definition ex_app : list task := [ mkTask 7 1 0 true [mkCtx 70 2] [700] 1 ]%N.
 
 Example C07_hyp_met :
   t_meta ex_t = true
@@ -108,5 +117,91 @@ Example C07_hyp_met :
         ex_t :: skipn 2 ex_rest ++ ex_app).
 Proof.
   split; [reflexivity|]. split; [apply nodupb_NoDup; vm_compute; reflexivity|].
+  repeat split; vm_compute; reflexivity.
+Qed.
+
+(* ---------------------------------------------------------------- the queue set *)
+
+(* the decidable predicate of the set level holds of the model on EVERY input: any number of
+   named queues, the executed task carrying any name and sitting anywhere or nowhere *)
+Theorem C07_set_P_holds : forall i, P_set i (run_set i) = true.
+Proof. exact P_set_holds. Qed.
+Print Assumptions C07_set_P_holds.
+
+(* a task whose name no queue of the set has (the empty name of the webhook handlers' tasks
+   included): nothing is merged and no queue is touched - each holds what it held plus its
+   arrivals *)
+Theorem C07_queueless_run_merges_nothing : forall stop t qs app,
+  ~ In (t_qn t) (map fst qs) ->
+  combine_set stop t qs app = (None, arrive app qs)
+  /\ forall n, get_by_name n (arrive app qs)
+               = option_map (fun q => q ++ arrivals n app) (get_by_name n qs).
+Proof. intros stop t qs app H. split; [exact (combine_set_no_queue stop t qs app H) | intros n; apply get_arrive]. Qed.
+Print Assumptions C07_queueless_run_merges_nothing.
+
+(* a run in queue A never touches queue B: whatever the layout, a queue the executed task does
+   not name holds afterwards what it held plus its arrivals; the set of queues is the same *)
+Theorem C07_other_queues_untouched : forall stop t qs app,
+  map fst (snd (combine_set stop t qs app)) = map fst qs
+  /\ forall n, n <> t_qn t ->
+       get_by_name n (snd (combine_set stop t qs app))
+       = option_map (fun q => q ++ arrivals n app) (get_by_name n qs).
+Proof. intros stop t qs app. split; [apply combine_set_names | intros n; apply combine_set_others]. Qed.
+Print Assumptions C07_other_queues_untouched.
+
+(* on the queue the task names, the call IS the single-queue call: every theorem above about
+   [combine_concurrent] speaks about that queue of the set *)
+Theorem C07_set_run_is_queue_run : forall stop t qs app q,
+  get_by_name (t_qn t) qs = Some q ->
+  fst (combine_set stop t qs app) = fst (combine_concurrent stop t q (arrivals (t_qn t) app))
+  /\ get_by_name (t_qn t) (snd (combine_set stop t qs app))
+     = Some (snd (combine_concurrent stop t q (arrivals (t_qn t) app))).
+Proof. exact combine_set_own. Qed.
+Print Assumptions C07_set_run_is_queue_run.
+
+(* ---------------------------------------------------------------- the task handler *)
+
+(* every step of the operator model - a worker executing the head of its queue (hook exit 0 or
+   not), or a queue-less task run by a webhook handler - meets the step predicate, from EVERY
+   state of the queue set; hence every session does *)
+Theorem C07_op_step_holds : forall qs st, P_step qs st (model_step qs st) = true.
+Proof. exact P_step_holds. Qed.
+Print Assumptions C07_op_step_holds.
+
+Theorem C07_op_session_holds : forall steps qs, P_session qs steps (run_session qs steps) = true.
+Proof. exact P_session_holds. Qed.
+Print Assumptions C07_op_session_holds.
+
+(* the run of a task whose name no queue has: exactly one execution, with exactly the task's
+   own contexts, and the queue set afterwards IS the queue set before *)
+Theorem C07_webhook_run_leaves_queues : forall qs t ok,
+  ~ In (t_qn t) (map fst qs) ->
+  model_step qs (SLoose t ok) = mkSO [mkRun (t_hook t) (t_ctxs t)] ok qs.
+Proof. exact loose_run_leaves_queues. Qed.
+Print Assumptions C07_webhook_run_leaves_queues.
+
+(* non-vacuity: two queues; main (1) = hook 1, hook 1, hook 2; queue 2 = hook 1, hook 1.
+   A validating webhook task of hook 1 (empty name, in no queue) arrives: hypothesis met, the
+   queues stay; then main's head is executed and fails (merges 12, stays with both contexts),
+   is retried and succeeds; queue 2 is never touched by the runs of main. *)
+Definition ex_qs : qset :=
+  [ (1, [ mkTask 11 1 0 true [mkCtx 1 0] [] 1; mkTask 12 1 0 true [mkCtx 2 0] [] 1;
+          mkTask 13 2 0 true [mkCtx 3 0] [] 1 ]);
+    (2, [ mkTask 21 1 0 true [mkCtx 4 1] [] 2; mkTask 22 1 0 true [mkCtx 5 1] [] 2 ]) ]%N.
+Definition ex_hook_task : task := (mkTask 99 1 0 true [mkCtx 9 0] [] 0)%N.
+
+Example C07_set_hyp_met :
+  ~ In (t_qn ex_hook_task) (map fst ex_qs)
+  /\ wf_set (mkSIn ex_hook_task [] ex_qs [(2, mkTask 23 1 0 true [mkCtx 6 1] [] 2)]%N) = true
+  /\ wf_state ex_qs = true
+  /\ get_by_name 1 ex_qs = Some (snd (hd (0%N, []) ex_qs))
+  /\ map (fun o => (st_runs o, st_success o, map (fun p => (fst p, map t_id (snd p))) (st_state o)))
+         (run_session ex_qs [SLoose ex_hook_task true; SHead 1 false; SHead 1 true; SHead 2 true])
+     = [ ([mkRun 1 [mkCtx 9 0]], true, [(1, [11; 12; 13]); (2, [21; 22])]);
+         ([mkRun 1 [mkCtx 1 0; mkCtx 2 0]], false, [(1, [11; 13]); (2, [21; 22])]);
+         ([mkRun 1 [mkCtx 1 0; mkCtx 2 0]], true, [(1, [13]); (2, [21; 22])]);
+         ([mkRun 1 [mkCtx 5 1]], true, [(1, [13]); (2, [])]) ]%N.
+Proof.
+  split; [vm_compute; intros [H|[H|[]]]; discriminate|].
   repeat split; vm_compute; reflexivity.
 Qed.
